@@ -278,7 +278,8 @@ func addrImmConst(t immType, i instruction, w expr.Width) expr.Const {
 	if !ok {
 		panic(fmt.Sprintf("immediate encoding %d has no value", t))
 	}
-	return expr.NewConstUint(addrAddImm(i.addr, imm), w)
+	// Addresses wrap around at the width of the address space.
+	return expr.ConstFromUint(uint64(addrAddImm(i.addr, imm))).WithWidth(w)
 }
 
 func branchCmp(
@@ -288,7 +289,7 @@ func branchCmp(
 	w expr.Width,
 ) expr.Effect {
 	jumpTarget := addrImmConst(immTypeB, i, w)
-	nextInstr := expr.NewConstUint(i.addr+instructionLen, w)
+	nextInstr := expr.ConstFromUint(uint64(i.addr + instructionLen)).WithWidth(w)
 
 	condTrue, condFalse := jumpTarget, nextInstr
 	if !branchIfTrue {
